@@ -570,41 +570,43 @@ def _group_removal(ctx):
     var = sorted(N.for_targets(loop))[-1]
     facts = N.must_facts(graph, nz)
     body = K.loop_body_nodes(loop)
+    # the tests of the loop that look at the instance: each one must be the
+    # reference comparison with the group; the 'found' outcome of the walk
+    # is the edge on which it holds (the helper may be spliced in at the
+    # condition, so outcomes are edges, not statements)
     flagged = []
-    for node in body:
-        if node.kind != 'stmt':
-            continue
-        mine = [f for f in N.raw_only(facts[node]) if any(
-            m == var or m.startswith(var + '.') for m in f.mentions)]
-        if not mine:
-            continue
-        flagged.append(node)
-        extra = []
-        for fact in mine:
-            key = fact.key
-            ok = False
-            if key[0] == 'cmp' and key[1] == '==':
-                terms = [t for t, _c in key[2]]
-                ok = '%s.identity_group_ref' % var in terms and \
-                    len(terms) == 2
-            elif key[0] == 'is' and key[3]:
-                ok = '%s.identity_group_ref' % var in key[1:3]
-            if not ok:
-                extra.append(N.show(fact))
-        ctx.ob('C05.6', func, node, not extra,
+    tests = [n for n in body if n.kind == 'test' and n.ast is not None and
+             any(m == var or m.startswith(var + '.')
+                 for m in N.mentions(n.ast))]
+    for test in tests:
+        atom = nz.atom(test.ast)
+        key = atom.key
+        ok = False
+        found_kind = 'true'
+        if key[0] == 'cmp' and key[1] in ('==', '!='):
+            terms = [t for t, _c in key[2]]
+            ok = '%s.identity_group_ref' % var in terms and len(terms) == 2
+            found_kind = 'true' if key[1] == '==' else 'false'
+        elif key[0] == 'is':
+            ok = '%s.identity_group_ref' % var in key[1:3]
+            found_kind = 'true' if key[3] else 'false'
+        ctx.ob('C05.6', func, test, ok,
                'the in-use test of the group is reference equality only'
-               if not extra else
+               if ok else
                'the in-use test is narrowed by %s: a group still referenced '
-               'by instances can be dropped' % ', '.join(extra))
-    ctx.require(flagged, 'in-use branch of %s' % func.qualname)
+               'by instances can be dropped' % N.show(atom))
+        if ok:
+            flagged.extend(e.dst for e in test.succ if e.kind == found_kind)
+    ctx.require(tests, 'in-use branch of %s' % func.qualname)
     # the deletion is reachable only when the loop found no reference
     flags = set()
-    for node in flagged:
-        if isinstance(node.ast, ast.Assign) and \
-                isinstance(node.ast.targets[0], ast.Name) and \
-                isinstance(node.ast.value, ast.Constant) and \
-                node.ast.value.value is True:
-            flags.add(node.ast.targets[0].id)
+    for start in flagged:
+        for node in [start] + list(C.reach_after(start, edge_ok=C.no_exc)):
+            if node.kind == 'stmt' and isinstance(node.ast, ast.Assign) and \
+                    isinstance(node.ast.targets[0], ast.Name) and \
+                    isinstance(node.ast.value, ast.Constant) and \
+                    node.ast.value.value is True:
+                flags.add(node.ast.targets[0].id)
     for node in dels:
         ok = any(K.guarded_by(graph, node, lambda e, f=flag: K.truth_edge(
             nz, e, f, False), start=loop) for flag in flags) or \
